@@ -1,1 +1,583 @@
-//! ref_pix (to be filled)
+//! Reference pixel decoders, written from the hardware format definitions (PICA200 texture
+//! layout, Khronos OES_compressed_ETC1_RGB8_texture, GameCube GX texture formats) — not from
+//! mila's code. DESIGN Appendix A is the summary this file implements.
+//!
+//! A decoded pixel is four *expectations* rather than four bytes, because the property
+//! fixes some channels exactly (ETC1 colours, the 0xFF alpha of formats without alpha),
+//! bounds others ("within one quantisation step of the linear expansion of the source
+//! bits") and leaves some open (RGB of an A8 pixel; blocks the ETC1 rules do not define).
+
+#[derive(Clone, Copy, Debug, PartialEq, Eq, Hash)]
+pub enum Chan {
+    /// the output byte is fixed
+    Exact(u8),
+    /// the channel comes from a `bits`-wide source field holding `v`:
+    /// |out − v·255/(2^bits−1)| ≤ 255/(2^bits−1)
+    Linear { v: u32, bits: u32 },
+    /// the statement does not constrain the byte
+    Any,
+}
+
+impl Chan {
+    #[inline]
+    pub fn accepts(self, out: u8) -> bool {
+        match self {
+            Chan::Exact(e) => e == out,
+            Chan::Any => true,
+            Chan::Linear { v, bits } => {
+                let m = (1i64 << bits) - 1;
+                ((out as i64) * m - (v as i64) * 255).abs() <= 255
+            }
+        }
+    }
+    pub fn describe(self) -> String {
+        match self {
+            Chan::Exact(e) => format!("={}", e),
+            Chan::Any => "any".into(),
+            Chan::Linear { v, bits } => {
+                let m = (1i64 << bits) - 1;
+                let lo = ((v as i64 * 255 - 255) + m - 1).div_euclid(m).max(0);
+                let hi = ((v as i64 * 255 + 255).div_euclid(m)).min(255);
+                format!("{}..={} ({} of {} bits)", lo, hi, v, bits)
+            }
+        }
+    }
+    pub fn is_pinned(self) -> bool {
+        matches!(self, Chan::Exact(_))
+    }
+}
+
+/// R, G, B, A
+pub type Px = [Chan; 4];
+
+pub const ANY_PX: Px = [Chan::Any; 4];
+
+/// First pixel/channel at which `got` (RGBA bytes) is not accepted by `exp`.
+pub fn first_mismatch(exp: &[Px], got: &[u8]) -> Option<(usize, usize)> {
+    for (i, px) in exp.iter().enumerate() {
+        for c in 0..4 {
+            if !px[c].accepts(got[i * 4 + c]) {
+                return Some((i, c));
+            }
+        }
+    }
+    None
+}
+
+pub fn describe_px(p: &Px) -> String {
+    format!("[R {} G {} B {} A {}]", p[0].describe(), p[1].describe(), p[2].describe(), p[3].describe())
+}
+
+// ---------------------------------------------------------------------------------------
+// 3DS (PICA200) texture formats
+
+#[derive(Clone, Copy, Debug, PartialEq, Eq, Hash)]
+pub enum Fmt {
+    Rgba8,
+    Rgba5551,
+    Rgb565,
+    Rgba4,
+    La8,
+    L8,
+    A8,
+    Etc1,
+    Etc1A4,
+}
+
+impl Fmt {
+    pub const ALL: [Fmt; 9] = [Fmt::Rgba8, Fmt::Rgba5551, Fmt::Rgb565, Fmt::Rgba4, Fmt::La8, Fmt::L8, Fmt::A8, Fmt::Etc1, Fmt::Etc1A4];
+
+    /// value of the `pixel_format` field in CTPK / BCH / CGFX
+    pub fn code(self) -> u32 {
+        match self {
+            Fmt::Rgba8 => 0,
+            Fmt::Rgba5551 => 2,
+            Fmt::Rgb565 => 3,
+            Fmt::Rgba4 => 4,
+            Fmt::La8 => 5,
+            Fmt::L8 => 7,
+            Fmt::A8 => 8,
+            Fmt::Etc1 => 12,
+            Fmt::Etc1A4 => 13,
+        }
+    }
+    pub fn from_code(c: u32) -> Option<Fmt> {
+        Fmt::ALL.iter().copied().find(|f| f.code() == c)
+    }
+    pub fn name(self) -> &'static str {
+        match self {
+            Fmt::Rgba8 => "RGBA8",
+            Fmt::Rgba5551 => "RGBA5551",
+            Fmt::Rgb565 => "RGB565",
+            Fmt::Rgba4 => "RGBA4",
+            Fmt::La8 => "LA8",
+            Fmt::L8 => "L8",
+            Fmt::A8 => "A8",
+            Fmt::Etc1 => "ETC1",
+            Fmt::Etc1A4 => "ETC1A4",
+        }
+    }
+    pub fn from_name(n: &str) -> Option<Fmt> {
+        Fmt::ALL.iter().copied().find(|f| f.name() == n)
+    }
+    pub fn is_etc(self) -> bool {
+        matches!(self, Fmt::Etc1 | Fmt::Etc1A4)
+    }
+    /// bits per pixel
+    pub fn bpp(self) -> usize {
+        match self {
+            Fmt::Rgba8 => 32,
+            Fmt::Rgba5551 | Fmt::Rgb565 | Fmt::Rgba4 | Fmt::La8 => 16,
+            Fmt::L8 | Fmt::A8 | Fmt::Etc1A4 => 8,
+            Fmt::Etc1 => 4,
+        }
+    }
+    /// exact payload size of a w×h texture (w, h multiples of 8)
+    pub fn payload_len(self, w: usize, h: usize) -> usize {
+        w * h * self.bpp() / 8
+    }
+    /// bytes of one ETC block (colour word, preceded by the alpha word for ETC1A4)
+    pub fn block_len(self) -> usize {
+        match self {
+            Fmt::Etc1 => 8,
+            Fmt::Etc1A4 => 16,
+            _ => 0,
+        }
+    }
+}
+
+/// Position inside an 8×8 tile of the m-th stored pixel (Morton / Z-order: x takes bits
+/// 0, 2, 4 of m and y bits 1, 3, 5).
+#[inline]
+pub fn morton_xy(m: usize) -> (usize, usize) {
+    let x = (m & 1) | ((m >> 1) & 2) | ((m >> 2) & 4);
+    let y = ((m >> 1) & 1) | ((m >> 2) & 2) | ((m >> 3) & 4);
+    (x, y)
+}
+
+/// Inverse of `morton_xy`.
+#[inline]
+pub fn morton_index(x: usize, y: usize) -> usize {
+    let mut m = 0;
+    for b in 0..3 {
+        m |= ((x >> b) & 1) << (2 * b);
+        m |= ((y >> b) & 1) << (2 * b + 1);
+    }
+    m
+}
+
+/// Index (in stored order) of the pixel shown at (x, y) of a w-wide non-ETC texture:
+/// tiles of 8×8 row-major, Morton order inside.
+#[inline]
+pub fn source_index(w: usize, x: usize, y: usize) -> usize {
+    let tile = (y / 8) * (w / 8) + x / 8;
+    tile * 64 + morton_index(x % 8, y % 8)
+}
+
+/// (stored block number, pixel number inside the block) shown at (x, y) of a w-wide ETC
+/// texture: four 4×4 blocks per 8×8 tile in Z order (left-top, right-top, left-bottom,
+/// right-bottom), pixel number = 4·column + row.
+#[inline]
+pub fn etc_source(w: usize, x: usize, y: usize) -> (usize, usize) {
+    let tile = (y / 8) * (w / 8) + x / 8;
+    let b = ((y % 8) / 4) * 2 + (x % 8) / 4;
+    (tile * 4 + b, 4 * (x % 4) + (y % 4))
+}
+
+#[inline]
+fn lin(v: u32, bits: u32) -> Chan {
+    Chan::Linear { v, bits }
+}
+
+#[inline]
+fn field(value: u32, hi: u32, lo: u32) -> u32 {
+    (value >> lo) & ((1u32 << (hi - lo + 1)) - 1)
+}
+
+/// One stored value (already assembled little-endian) of a non-ETC format.
+pub fn decode_value(fmt: Fmt, v: u32) -> Px {
+    const OPAQUE: Chan = Chan::Exact(0xFF);
+    match fmt {
+        // file bytes A, B, G, R  ⇒  little-endian word R<<24 | G<<16 | B<<8 | A
+        Fmt::Rgba8 => [lin(field(v, 31, 24), 8), lin(field(v, 23, 16), 8), lin(field(v, 15, 8), 8), lin(field(v, 7, 0), 8)],
+        Fmt::Rgba5551 => [lin(field(v, 15, 11), 5), lin(field(v, 10, 6), 5), lin(field(v, 5, 1), 5), lin(field(v, 0, 0), 1)],
+        Fmt::Rgb565 => [lin(field(v, 15, 11), 5), lin(field(v, 10, 5), 6), lin(field(v, 4, 0), 5), OPAQUE],
+        Fmt::Rgba4 => [lin(field(v, 15, 12), 4), lin(field(v, 11, 8), 4), lin(field(v, 7, 4), 4), lin(field(v, 3, 0), 4)],
+        Fmt::La8 => {
+            let l = lin(field(v, 15, 8), 8);
+            [l, l, l, lin(field(v, 7, 0), 8)]
+        }
+        Fmt::L8 => {
+            let l = lin(v & 0xFF, 8);
+            [l, l, l, OPAQUE]
+        }
+        // no colour bits in the source: RGB is left open
+        Fmt::A8 => [Chan::Any, Chan::Any, Chan::Any, lin(v & 0xFF, 8)],
+        Fmt::Etc1 | Fmt::Etc1A4 => ANY_PX,
+    }
+}
+
+// ---------------------------------------------------------------------------------------
+// ETC1 (Khronos OES_compressed_ETC1_RGB8_texture, section 3.9.x "ETC1 compressed textures")
+
+/// Intensity modifier sets, indexed by table codeword, then by the 2-bit pixel index value
+/// (msb·2 + lsb): 0 ⇒ +a, 1 ⇒ +b, 2 ⇒ −a, 3 ⇒ −b with (a, b) the small/large modifier.
+pub const ETC1_MODIFIERS: [[i32; 4]; 8] = [
+    [2, 8, -2, -8],
+    [5, 17, -5, -17],
+    [9, 29, -9, -29],
+    [13, 42, -13, -42],
+    [18, 60, -18, -60],
+    [24, 80, -24, -80],
+    [33, 106, -33, -106],
+    [47, 183, -47, -183],
+];
+
+#[inline]
+fn bits64(w: u64, hi: u32, lo: u32) -> u32 {
+    ((w >> lo) & ((1u64 << (hi - lo + 1)) - 1)) as u32
+}
+
+/// The two base colours of a block; `None` when the block is in differential mode and a
+/// base+delta sum leaves 0..=31 (the ETC1 rules do not define the result).
+pub fn etc1_base_colours(word: u64) -> Option<([u8; 3], [u8; 3])> {
+    let diff = bits64(word, 33, 33) == 1;
+    let mut c1 = [0u8; 3];
+    let mut c2 = [0u8; 3];
+    for (ch, top) in [63u32, 55, 47].into_iter().enumerate() {
+        if !diff {
+            let a = bits64(word, top, top - 3);
+            let b = bits64(word, top - 4, top - 7);
+            c1[ch] = (a * 17) as u8; // 4 → 8 bits by replication
+            c2[ch] = (b * 17) as u8;
+        } else {
+            let a = bits64(word, top, top - 4) as i32;
+            let d3 = bits64(word, top - 5, top - 7) as i32;
+            let d = if d3 >= 4 { d3 - 8 } else { d3 }; // 3-bit two's complement
+            let b = a + d;
+            if !(0..=31).contains(&b) {
+                return None;
+            }
+            c1[ch] = ((a << 3) | (a >> 2)) as u8; // 5 → 8 bits by replication
+            c2[ch] = ((b << 3) | (b >> 2)) as u8;
+        }
+    }
+    Some((c1, c2))
+}
+
+/// Decode one 64-bit ETC1 block; result indexed by pixel number 4·x + y.
+pub fn etc1_block(word: u64) -> Option<[[u8; 3]; 16]> {
+    let (c1, c2) = etc1_base_colours(word)?;
+    let flip = bits64(word, 32, 32) == 1;
+    let cw1 = bits64(word, 39, 37) as usize;
+    let cw2 = bits64(word, 36, 34) as usize;
+    let mut out = [[0u8; 3]; 16];
+    for x in 0..4usize {
+        for y in 0..4usize {
+            let n = 4 * x + y;
+            // flip = 0: two 2×4 sub-blocks side by side; flip = 1: two 4×2 sub-blocks on top of each other
+            let second = if flip { y >= 2 } else { x >= 2 };
+            let (base, cw) = if second { (c2, cw2) } else { (c1, cw1) };
+            let msb = ((word >> (16 + n)) & 1) as usize;
+            let lsb = ((word >> n) & 1) as usize;
+            let m = ETC1_MODIFIERS[cw][msb * 2 + lsb];
+            for ch in 0..3 {
+                out[n][ch] = (base[ch] as i32 + m).clamp(0, 255) as u8;
+            }
+        }
+    }
+    Some(out)
+}
+
+#[derive(Clone, Copy, Debug, Default)]
+pub struct Etc1Fields {
+    pub diff: bool,
+    pub flip: bool,
+    pub table1: u8,
+    pub table2: u8,
+    /// per channel R, G, B: individual mode (base1 4 bits, base2 4 bits);
+    /// differential mode (base 5 bits, delta as raw 3-bit two's complement)
+    pub colour: [(u8, u8); 3],
+    pub msb: u16,
+    pub lsb: u16,
+}
+
+/// Assemble a block word from its fields (the inverse of the bit layout used by `etc1_block`).
+pub fn etc1_compose(f: &Etc1Fields) -> u64 {
+    let mut w: u64 = 0;
+    for (ch, top) in [63u32, 55, 47].into_iter().enumerate() {
+        let (a, b) = f.colour[ch];
+        if f.diff {
+            w |= ((a & 31) as u64) << (top - 4);
+            w |= ((b & 7) as u64) << (top - 7);
+        } else {
+            w |= ((a & 15) as u64) << (top - 3);
+            w |= ((b & 15) as u64) << (top - 7);
+        }
+    }
+    w |= ((f.table1 & 7) as u64) << 37;
+    w |= ((f.table2 & 7) as u64) << 34;
+    w |= (f.diff as u64) << 33;
+    w |= (f.flip as u64) << 32;
+    w |= (f.msb as u64) << 16;
+    w |= f.lsb as u64;
+    w
+}
+
+/// Serialise blocks in 3DS order: per block [alpha word LE (ETC1A4 only)] colour word LE.
+pub fn etc_payload(fmt: Fmt, blocks: &[(u64, u64)]) -> Vec<u8> {
+    let mut v = Vec::with_capacity(blocks.len() * fmt.block_len());
+    for &(alpha, colour) in blocks {
+        if fmt == Fmt::Etc1A4 {
+            v.extend_from_slice(&alpha.to_le_bytes());
+        }
+        v.extend_from_slice(&colour.to_le_bytes());
+    }
+    v
+}
+
+pub struct Decoded {
+    /// w·h expectations, row-major
+    pub px: Vec<Px>,
+    /// ETC blocks whose colours the rules leave undefined (all their pixels are `Any`)
+    pub undefined_blocks: usize,
+}
+
+/// Reference decoding of a whole 3DS texture. `None` unless w, h are multiples of 8 and the
+/// payload has exactly the size the format requires.
+pub fn decode_3ds(fmt: Fmt, w: usize, h: usize, data: &[u8]) -> Option<Decoded> {
+    if w == 0 || h == 0 || w % 8 != 0 || h % 8 != 0 || data.len() != fmt.payload_len(w, h) {
+        return None;
+    }
+    let mut px = vec![ANY_PX; w * h];
+    let mut undefined_blocks = 0;
+    if !fmt.is_etc() {
+        let bytes = fmt.bpp() / 8;
+        for y in 0..h {
+            for x in 0..w {
+                let s = source_index(w, x, y);
+                let mut v: u32 = 0;
+                for k in 0..bytes {
+                    v |= (data[s * bytes + k] as u32) << (8 * k);
+                }
+                px[y * w + x] = decode_value(fmt, v);
+            }
+        }
+    } else {
+        let bl = fmt.block_len();
+        let nblocks = w * h / 16;
+        let mut blocks: Vec<Option<[[u8; 3]; 16]>> = Vec::with_capacity(nblocks);
+        let mut alphas: Vec<u64> = Vec::with_capacity(nblocks);
+        for b in 0..nblocks {
+            let raw = &data[b * bl..(b + 1) * bl];
+            let (a, c) = if fmt == Fmt::Etc1A4 {
+                (u64::from_le_bytes(raw[0..8].try_into().unwrap()), u64::from_le_bytes(raw[8..16].try_into().unwrap()))
+            } else {
+                (u64::MAX, u64::from_le_bytes(raw[0..8].try_into().unwrap()))
+            };
+            let d = etc1_block(c);
+            if d.is_none() {
+                undefined_blocks += 1;
+            }
+            blocks.push(d);
+            alphas.push(a);
+        }
+        for y in 0..h {
+            for x in 0..w {
+                let (b, n) = etc_source(w, x, y);
+                if let Some(col) = &blocks[b] {
+                    let a = if fmt == Fmt::Etc1A4 {
+                        // 4 bits per pixel, pixel n in bits 4n+3..4n of the alpha word
+                        lin(((alphas[b] >> (4 * n)) & 15) as u32, 4)
+                    } else {
+                        Chan::Exact(0xFF)
+                    };
+                    px[y * w + x] = [Chan::Exact(col[n][0]), Chan::Exact(col[n][1]), Chan::Exact(col[n][2]), a];
+                }
+            }
+        }
+    }
+    Some(Decoded { px, undefined_blocks })
+}
+
+// ---------------------------------------------------------------------------------------
+// GameCube / Wii
+
+/// RGB5A3 (big-endian u16 in the file; `v` is the assembled value): bit 15 set ⇒ opaque
+/// RGB555, clear ⇒ 3-bit alpha + RGB444.
+pub fn rgb5a3(v: u16) -> Px {
+    let v = v as u32;
+    if v & 0x8000 != 0 {
+        [lin(field(v, 14, 10), 5), lin(field(v, 9, 5), 5), lin(field(v, 4, 0), 5), Chan::Exact(0xFF)]
+    } else {
+        [lin(field(v, 11, 8), 4), lin(field(v, 7, 4), 4), lin(field(v, 3, 0), 4), lin(field(v, 14, 12), 3)]
+    }
+}
+
+/// Stored size of a CI8 image: whole 8×4 blocks.
+pub fn ci8_len(w: usize, h: usize) -> usize {
+    ((w + 7) / 8) * ((h + 3) / 4) * 32
+}
+
+/// Index (in stored order) of the CI8 pixel shown at (x, y): 8×4 blocks row-major,
+/// rows of 8 inside a block.
+#[inline]
+pub fn ci8_source_index(w: usize, x: usize, y: usize) -> usize {
+    let bw = (w + 7) / 8;
+    ((y / 4) * bw + x / 8) * 32 + (y % 4) * 8 + (x % 8)
+}
+
+/// The w·h palette indices of a CI8 image, row-major, cropped to the stated dimensions.
+pub fn ci8_indices(w: usize, h: usize, data: &[u8]) -> Option<Vec<u8>> {
+    if data.len() != ci8_len(w, h) {
+        return None;
+    }
+    let mut v = Vec::with_capacity(w * h);
+    for y in 0..h {
+        for x in 0..w {
+            v.push(data[ci8_source_index(w, x, y)]);
+        }
+    }
+    Some(v)
+}
+
+/// Reference decoding of a CI8 image with an RGB5A3 palette. `None` if sizes are wrong or an
+/// index used by a visible pixel is outside the palette.
+pub fn decode_ci8(w: usize, h: usize, data: &[u8], palette: &[u16]) -> Option<Vec<Px>> {
+    let idx = ci8_indices(w, h, data)?;
+    let mut v = Vec::with_capacity(w * h);
+    for i in idx {
+        v.push(rgb5a3(*palette.get(i as usize)?));
+    }
+    Some(v)
+}
+
+// ---------------------------------------------------------------------------------------
+// deterministic filler for payloads (splitmix64)
+
+pub struct Rng(pub u64);
+
+impl Rng {
+    pub fn next(&mut self) -> u64 {
+        self.0 = self.0.wrapping_add(0x9E3779B97F4A7C15);
+        let mut z = self.0;
+        z = (z ^ (z >> 30)).wrapping_mul(0xBF58476D1CE4E5B9);
+        z = (z ^ (z >> 27)).wrapping_mul(0x94D049BB133111EB);
+        z ^ (z >> 31)
+    }
+    pub fn below(&mut self, n: u64) -> u64 {
+        self.next() % n
+    }
+}
+
+/// A pseudo-random ETC1 colour word whose result the rules define. With
+/// `allow_negative_delta` false, differential blocks only use deltas 0..=3.
+pub fn random_defined_etc1_word(rng: &mut Rng, allow_negative_delta: bool) -> u64 {
+    let r = rng.next();
+    let mut f = Etc1Fields {
+        diff: r & 1 == 1,
+        flip: r & 2 == 2,
+        table1: ((r >> 2) & 7) as u8,
+        table2: ((r >> 5) & 7) as u8,
+        colour: [(0, 0); 3],
+        msb: (r >> 16) as u16,
+        lsb: (r >> 32) as u16,
+    };
+    for ch in 0..3 {
+        if f.diff {
+            loop {
+                let a = rng.below(32) as i32;
+                let d = if allow_negative_delta { rng.below(8) as i32 - 4 } else { rng.below(4) as i32 };
+                if (0..=31).contains(&(a + d)) {
+                    f.colour[ch] = (a as u8, (d & 7) as u8);
+                    break;
+                }
+            }
+        } else {
+            f.colour[ch] = (rng.below(16) as u8, rng.below(16) as u8);
+        }
+    }
+    etc1_compose(&f)
+}
+
+/// Deterministic payload of exactly the required size for a w×h texture. ETC payloads only
+/// contain blocks the ETC1 rules define.
+pub fn random_payload(fmt: Fmt, w: usize, h: usize, seed: u64, allow_negative_delta: bool) -> Vec<u8> {
+    let mut rng = Rng(seed ^ ((fmt.code() as u64) << 40) ^ ((w as u64) << 20) ^ h as u64);
+    if fmt.is_etc() {
+        let blocks: Vec<(u64, u64)> = (0..w * h / 16).map(|_| (rng.next(), random_defined_etc1_word(&mut rng, allow_negative_delta))).collect();
+        etc_payload(fmt, &blocks)
+    } else {
+        let n = fmt.payload_len(w, h);
+        let mut v = Vec::with_capacity(n + 8);
+        while v.len() < n {
+            v.extend_from_slice(&rng.next().to_le_bytes());
+        }
+        v.truncate(n);
+        v
+    }
+}
+
+#[cfg(test)]
+mod tests {
+    use super::*;
+
+    #[test]
+    fn morton_is_a_bijection_and_matches_the_z_curve() {
+        let mut seen = [false; 64];
+        for m in 0..64 {
+            let (x, y) = morton_xy(m);
+            assert!(x < 8 && y < 8);
+            assert_eq!(morton_index(x, y), m);
+            seen[y * 8 + x] = true;
+        }
+        assert!(seen.iter().all(|b| *b));
+        // first eight positions of the Z curve
+        let first: Vec<(usize, usize)> = (0..8).map(morton_xy).collect();
+        assert_eq!(first, vec![(0, 0), (1, 0), (0, 1), (1, 1), (2, 0), (3, 0), (2, 1), (3, 1)]);
+    }
+
+    #[test]
+    fn etc1_hand_computed() {
+        // individual mode, R1=15 G1=0 B1=8, R2=1 G2=2 B2=3, tables 0 and 7, no flip,
+        // pixel 0: msb 0 lsb 0 (+2); pixel 8 (x=2,y=0): msb 1 lsb 1 (−183)
+        let f = Etc1Fields { diff: false, flip: false, table1: 0, table2: 7, colour: [(15, 1), (0, 2), (8, 3)], msb: 1 << 8, lsb: 1 << 8 };
+        let w = etc1_compose(&f);
+        assert_eq!(w >> 32, 0xF102831C);
+        let d = etc1_block(w).unwrap();
+        assert_eq!(d[0], [255, 2, 138]);
+        assert_eq!(d[8], [0, 0, 0]);
+        assert_eq!(d[12], [17 + 47, 34 + 47, 51 + 47]);
+        // differential: base 31, delta −4 → 27; base 0, delta +3 → 3; base 16 delta 0
+        let f = Etc1Fields { diff: true, flip: true, table1: 1, table2: 1, colour: [(31, 4), (0, 3), (16, 0)], msb: 0, lsb: 0 };
+        let d = etc1_block(etc1_compose(&f)).unwrap();
+        assert_eq!(d[0], [255, 5, 132 + 5]); // top half: base1 = (255, 0, 132) + 5
+        assert_eq!(d[2], [(27 << 3 | 27 >> 2) + 5, (3 << 3) + 5, 132 + 5]); // y = 2: second sub-block
+        // out of range
+        let f = Etc1Fields { diff: true, colour: [(0, 7), (0, 0), (0, 0)], ..Default::default() };
+        assert!(etc1_block(etc1_compose(&f)).is_none());
+        let f = Etc1Fields { diff: true, colour: [(0, 0), (0, 0), (31, 1)], ..Default::default() };
+        assert!(etc1_block(etc1_compose(&f)).is_none());
+    }
+
+    #[test]
+    fn tolerance() {
+        assert!(Chan::Linear { v: 31, bits: 5 }.accepts(255));
+        assert!(Chan::Linear { v: 31, bits: 5 }.accepts(248));
+        assert!(!Chan::Linear { v: 31, bits: 5 }.accepts(246));
+        assert!(Chan::Linear { v: 0, bits: 5 }.accepts(8));
+        assert!(!Chan::Linear { v: 0, bits: 5 }.accepts(9));
+        assert!(Chan::Linear { v: 7, bits: 3 }.accepts(224));
+        assert!(Chan::Linear { v: 200, bits: 8 }.accepts(201));
+        assert!(!Chan::Linear { v: 200, bits: 8 }.accepts(202));
+    }
+
+    #[test]
+    fn ci8_blocks() {
+        assert_eq!(ci8_len(1, 1), 32);
+        assert_eq!(ci8_len(9, 5), 128);
+        assert_eq!(ci8_source_index(16, 8, 0), 32);
+        assert_eq!(ci8_source_index(16, 0, 4), 64);
+        assert_eq!(ci8_source_index(16, 3, 2), 19);
+    }
+}
